@@ -381,6 +381,8 @@ StringBuilder& StringBuilder::append(const char* str, std::size_t n) {
 		str_->append(str, n);
 	}
 	else {
+		std::string copy; // switching from the inline buffer to a string overwrites sbo_, and str may point into it
+		if (type() == Sbo && tag() < n) { str = copy.assign(str, n).c_str(); }
 		Buffer buf = grow(n);
 		std::memcpy(buf.pos(), str, n = std::min(n, buf.free()));
 		buf.pos()[n] = 0;
